@@ -318,10 +318,14 @@ class Device(pn53x.Device):
         fifo_level = self.chipset.read_register("CIU_FIFOLevel")
         if fifo_level == 0:
             raise nfc.clf.TimeoutError
+        if fifo_level > 64:
+            raise nfc.clf.TransmissionError("fifo level error")
         data = self.chipset.read_register(*(fifo_level * ["CIU_FIFOData"]))
+        if isinstance(data, int):  # single register
+            data = [data]
         data = ''.join(["{:08b}".format(octet)[::-1] for octet in data])
         data = [int(data[i:i+8][::-1], 2) for i in range(0, len(data)-8, 9)]
-        if self.check_crc_b(data) is False:
+        if len(data) < 2 or self.check_crc_b(data) is False:
             raise nfc.clf.TransmissionError("crc_b check error")
         return bytearray(data[0:-2])
 
